@@ -371,6 +371,56 @@ def real_fs(ck, work, quick):
                      f"'hang' = still retrying when killed after 8 s)", {"case": "deleted-cwd", "got": res},
                      key="retry-forever" if res == ["hang"] else None)
     # parent is not a directory / read-only cannot be provoked as root; covered by the stub faults
+    # "each run": main() through the real command line, twice on ONE Lithium object and once on a fresh one,
+    # all in the same directory: tmp1, tmp2, tmp3, the files of each run only in its own directory
+    d3 = os.path.join(work, "twice")
+    os.mkdir(d3)
+    src = os.path.join(os.environ.get("VERIF_REPO", "/repo"), "src")
+    prog = (
+        "import os, sys, json, logging\n"
+        f"sys.path.insert(0, {src!r})\n"
+        "logging.disable(logging.CRITICAL)\n"
+        "from lithium.reducer import Lithium\n"
+        "os.chdir(sys.argv[1])\n"
+        "open('cond.py','w').write('def interesting(args, prefix):\\n    return len(open(args[-1],\"rb\").read()) >= 4\\n')\n"
+        "out = []\n"
+        "l = Lithium()\n"
+        "for i, obj in enumerate((l, l, Lithium())):\n"
+        "    open('t.txt','w').write('a\\nb\\nc\\nd\\n')\n"
+        "    before = {n: sorted(os.listdir(n)) for n in os.listdir('.') if n.startswith('tmp')}\n"
+        "    rc = obj.main(['cond.py', 't.txt'])\n"
+        "    after = {n: sorted(os.listdir(n)) for n in os.listdir('.') if n.startswith('tmp')}\n"
+        "    out.append([rc, str(obj.temp_dir), before, after])\n"
+        "print(json.dumps(out))\n")
+    try:
+        pr = subprocess.run(["timeout", "-s", "KILL", "60", sys.executable, "-c", prog, d3], capture_output=True,
+                            text=True, timeout=70, check=False)
+        import json
+        got = json.loads(pr.stdout.strip().splitlines()[-1])
+    except Exception as e:  # pylint: disable=broad-except
+        got = ["crash", str(e)[:200]]
+    ck.count("realfs")
+    ck.nontrivial(("realfs", "main-twice"))
+    bad = None
+    if not got or got[0] == "crash" or len(got) != 3:
+        bad = f"runs did not complete: {got}"
+    else:
+        for i, (rc, td, before, after) in enumerate(got):
+            if td != f"tmp{i + 1}":
+                bad = f"run {i + 1} used {td}, expected the new directory tmp{i + 1}"
+                break
+            if td in before:
+                bad = f"run {i + 1} re-used the existing directory {td}"
+                break
+            if any(after.get(n) != files for n, files in before.items()):
+                bad = f"run {i + 1} changed the contents of an earlier run's directory: {before} -> {after}"
+                break
+            if not after.get(td):
+                bad = f"run {i + 1} wrote no intermediate files into its directory {td}"
+                break
+    if bad:
+        ck.violation(f"three runs through main() in one directory (two on the same Lithium object): {bad}",
+                     {"case": "main-twice", "got": got})
 
 
 def real_race(ck, work, quick, r):
